@@ -10,6 +10,7 @@ import (
 	"bytes"
 	"math/big"
 	"reflect"
+	"strconv"
 	"time"
 
 	"github.com/ozontech/file.d/cfg"
@@ -108,14 +109,14 @@ func (h *harn) usable(trees []*rnode, conds []cond, evs []hx.Sx) bool {
 // keep now-mode comparisons far from the clock (else make the node a constant-mode one)
 func settleClock(t *rnode, evs []hx.Sx) {
 	t.walk(func(x *rnode) {
-		if x.kind != kTs || x.mode != 1 {
+		if x.kind != kTs || x.mode == 0 {
 			return
 		}
 		tb := newTables()
 		for _, ev := range evs {
 			tb.addTree(&rnode{kind: kTs, path: x.path, format: x.format}, ev)
 		}
-		rhs := nominalNow + x.a + x.shift
+		rhs := nominalNow + x.a + x.shift // mode 2 (file_d_start): a = 0
 		for _, v := range tb.tm {
 			if v != nil && new(big.Int).Abs(new(big.Int).Sub(v, big.NewInt(rhs))).Cmp(big.NewInt(3*year)) < 0 {
 				x.mode, x.a = 0, nominalNow
@@ -152,6 +153,8 @@ func (h *harn) count(t *rnode) {
 			w.Count("op_ts_cmp")
 		case kType:
 			w.Count("op_check_type")
+		case kBad:
+			w.Count("malformed_node_map_" + strconv.Itoa(x.op))
 		default:
 			w.Count("op_" + logNames[x.kind])
 		}
@@ -176,8 +179,27 @@ func (h *harn) check(base string, via int, t *rnode, ev hx.Sx) {
 	tb := newTables()
 	tb.addTree(t, ev)
 	h.count(t)
+	if r := routeOf(via); r != rtPlain {
+		h.c.W.Count("rule_read_via_" + routeNames[r])
+	}
 	obs := h.c.Do(route(base, f), 0, hx.L(hx.I(via|hypBit(f)), t.sx(), ev, hx.Z(nominalNow), tb.sx()), f.resolves)
 	h.c.W.Count("decision_" + hx.String(obs))
+}
+
+// one antispam rule (threshold 0) over antispam data: which = 0 with the data in the place of the event
+func (h *harn) checkAs(base string, via int, t *rnode, d asData) {
+	if !h.usable([]*rnode{t}, nil, nil) {
+		return
+	}
+	var f flags
+	classifyAs(t, d, &f)
+	tb := newTables()
+	tb.addTreeAs(t, d)
+	h.count(t)
+	h.c.W.Count("rule_read_via_" + routeNames[routeOf(via)])
+	h.c.W.Count("antispam_data_cases")
+	obs := h.c.Do(route(base, f), 0, hx.L(hx.I(via|hypBit(f)), t.sx(), d.sx(), hx.Z(nominalNow), tb.sx()), f.resolves)
+	h.c.W.Count("antispam_decision_" + hx.String(obs))
 }
 
 func (h *harn) seq(base string, via int, ts []*rnode, evs []hx.Sx, allowEsc bool) {
@@ -209,6 +231,59 @@ func (h *harn) seq(base string, via int, ts []*rnode, evs []hx.Sx, allowEsc bool
 	}
 	h.c.W.Count("sequence_pairs")
 	h.c.Do(route(base, f), 1, hx.L(hx.I(via|hypBit(f)), hx.L(tsx...), hx.L(evs...), hx.Z(nominalNow), tb.sx()), f.resolves)
+}
+
+// a chain of probe actions, each with its own selector and result script, over the events of one stream
+func (h *harn) chain(base string, via int, acts []chainAct, evs []hx.Sx) {
+	var ts []*rnode
+	for _, a := range acts {
+		if a.tree != nil {
+			settleClock(a.tree, evs)
+			ts = append(ts, a.tree)
+		}
+	}
+	if !h.usable(ts, nil, evs) {
+		return
+	}
+	var f flags
+	tb := newTables()
+	for _, ev := range evs {
+		for _, t := range ts {
+			classify(t, ev, &f)
+			tb.addTree(t, ev)
+		}
+	}
+	if f.escState || f.hypFail || f.contHit || f.tsRange || h.holdBack(f) {
+		h.c.W.Count("chain_skipped_known_divergence")
+		return
+	}
+	for _, t := range ts {
+		h.count(t)
+	}
+	for _, a := range acts {
+		for _, r := range a.script {
+			h.c.W.Count("chain_result_" + []string{"pass", "break", "discard", "collapse"}[r])
+		}
+		switch {
+		case a.tree == nil && a.badVal == "":
+			h.c.W.Count("chain_action_without_selector")
+		case a.badVal != "":
+			h.c.W.Count("chain_action_with_malformed_match_fields")
+		}
+	}
+	h.c.W.Count("chain_actions_" + strconv.Itoa(len(acts)))
+	obs := h.c.Do(base, 1, hx.L(hx.I(via|hypBit(f)), chainSx(acts), hx.L(evs...), hx.Z(nominalNow), tb.sx()), true)
+	if !hx.IsInt(obs) {
+		for _, row := range hx.Items(obs) {
+			if !hx.IsInt(row) && len(hx.Items(row)) == 2 {
+				for i, b := range hx.Items(hx.Items(row)[0]) {
+					if hx.Truth(b) {
+						h.c.W.Count("chain_entered_action_" + strconv.Itoa(i))
+					}
+				}
+			}
+		}
+	}
 }
 
 func (h *harn) proc(base string, which int, t *rnode, mode string, invert bool, cs []cond, evs []hx.Sx) {
@@ -268,6 +343,7 @@ func c14Gen(c *hmain.Ctx) {
 	genTargeted(h)
 	genRandom(h)
 	genThresholds(h)
+	genCoverage(h)
 }
 
 func main() {
@@ -276,6 +352,6 @@ func main() {
 	insaneJSON.DisableBeautifulErrors = true
 	insaneJSON.StartNodePoolSize = 16
 	hmain.Run(&hmain.Prop{ID: "C14",
-		Rule: "exhaustive: every equal/contains/prefix/suffix node (case-sensitive and not) over every list of 1-2 values from {nil, strings over {a,B} up to length 2} x every field from {absent, null, 1, {}, strings over {a,B} up to length 3}; every and/or/not tree of depth <= 2 and width <= 2 over a true and a false leaf; every type check x every kind of field. random: trees of depth <= 6 over all operators with values derived from the event's own strings (shared prefixes, equal lengths, other case, multi-byte), events with absent/null/number/bool/object/array fields; sequences of checkers over sequences of events; legacy match_fields through processor.isMatch and through a real pipeline with a discard action; constructor-rejected rules. thresholds: events of 15-33 fields (insane-json map index from 17 fields on) alternating with narrow ones on one Root, through doif and through processor.isMatch; int_val_cmp on integers of 17-20 digits and around 2^31, 2^32, 2^53, 2^63; timestamps at both ends of the int64-nanosecond range; ts_cmp `now` with a 2 ms update interval and pauses between events. Non-trivial = at least one leaf's (condition's) field exists in the event; distinct = distinct (sub-model, case) text.",
+		Rule: "exhaustive: every equal/contains/prefix/suffix node (case-sensitive and not) over every list of 1-2 values from {nil, strings over {a,B} up to length 2} x every field from {absent, null, 1, {}, strings over {a,B} up to length 3}; every and/or/not tree of depth <= 2 and width <= 2 over a true and a false leaf; every type check x every kind of field. random: trees of depth <= 6 over all operators with values derived from the event's own strings (shared prefixes, equal lengths, other case, multi-byte), events with absent/null/number/bool/object/array fields; sequences of checkers over sequences of events; legacy match_fields through processor.isMatch and through a real pipeline with a discard action; constructor-rejected rules. thresholds: events of 15-33 fields (insane-json map index from 17 fields on) alternating with narrow ones on one Root, through doif and through processor.isMatch; int_val_cmp on integers of 17-20 digits and around 2^31, 2^32, 2^53, 2^63; timestamps at both ends of the int64-nanosecond range; ts_cmp `now` with a 2 ms update interval and pauses between events. coverage round: the same rules x events with the rule written tersely (documented defaults left out, scalar values) / as JSON text / with float numbers / inside the antispam section of a pipeline settings object, read by doif.NewFromMap, fd.extractDoIfChecker, fd.extractAntispamRules, fd.extractPipelineParams; 36 malformed node maps and 6 constructor calls with unknown names, alone and under and/or/not; antispam rules (threshold 0) over (record bytes, source name, meta map) through Antispammer.IsSpam and Pipeline.In; chains of 1-4 probe actions, each with its own do_if selector (or none) and result script (pass / break / discard / collapse), over 3-8 events of one stream in a real pipeline. Non-trivial = at least one leaf's (condition's) field exists in the event; distinct = distinct (sub-model, case) text.",
 		Gen:  c14Gen, Exec: c14Exec})
 }
